@@ -170,6 +170,11 @@ func addElemChanges(patchRoot, old, new *etree.Element, elemPath string) error {
 		return err
 	}
 	if old.Tag == "SegmentTimeline" {
+		// The S elements are diffed as a list; the element's own attributes as for any other element
+		err = addAttrChanges(patchRoot, old, new, elemPath)
+		if err != nil {
+			return fmt.Errorf("addAttrChanges for %s: %w", elemPath, err)
+		}
 		return addLeafListChanges(patchRoot, old, new, elemPath)
 	}
 	if isLeaf(old) && isLeaf(new) {
